@@ -221,6 +221,7 @@ class Builder:
         self.mutations = []   # (kind, receiver Node, ast node, FuncInfo): in-place updates
         self.assign_log = []  # (FuncInfo, ast.Name target, Node) for every plain-name assignment
         self.memo_calls = []  # (FuncInfo, call ast) of calls to memoised functions
+        self.alias_updates = []   # (location, ast, FuncInfo): in-place updates seen through an alias
         self.opaque = {}      # function fullname -> symbol name (result is a named dimensionless constant)
 
     # -- node construction ---------------------------------------------
@@ -1185,6 +1186,24 @@ class Builder:
         self.mutations.append(('augmented assignment', cur, st, self.frame.func))
         new = self.binop(op, cur, v, st)
         self.assign(st.target, new)
+        if isinstance(st.target, ast.Name) and arrayish(cur):
+            # `x += ..` on a numpy array updates the array object in place: every other name / attribute /
+            # global that holds the SAME array value (an alias, e.g. `x = self.grid`) sees the update
+            for oid, h in self.heap.items():
+                for k, val in list(h.items()):
+                    if val is cur:
+                        h[k] = new
+                        self.alias_updates.append((('heap', oid, k), st, self.frame.func))
+            for k, val in list(self.gvars.items()):
+                if val is cur:
+                    self.gvars[k] = new
+                    self.alias_updates.append((k, st, self.frame.func))
+            fr = self.frame
+            while fr is not None:
+                for k, val in list(fr.locals.items()):
+                    if val is cur:
+                        fr.locals[k] = new
+                fr = fr.parent
         return 'fall'
 
     def assign(self, t, v, rebinding=False):
@@ -1550,12 +1569,27 @@ class Builder:
         op = self.begin_op('construct %s%s' % (cls.name, label))
         kwn = self.mk('kwargs')
         kw = {'**': kwn}
+        # explicit constructor parameters without a default (e.g. the EOS object of the black-box
+        # Noh solvers): symbolic values that belong to the instance about to be created
+        owned = [kwn]
+        init = cls.find_method('__init__')
+        if init is not None:
+            a = init.node.args
+            pos = a.posonlyargs + a.args
+            nodef = len(pos) - len(a.defaults)
+            for i, prm in enumerate(pos[1:], start=1):
+                if i < nodef and prm.arg not in (ctor_args or {}):
+                    pn = self.mk('param', 'ctor:' + prm.arg)
+                    kw[prm.arg] = pn
+                    owned.append(pn)
         kw.update(ctor_args or {})
         Obj._count += 1
-        kwn.owner = Obj._count          # the keyword bundle belongs to the instance about to be created
+        for n in owned:
+            n.owner = Obj._count        # they belong to the instance about to be created
         Obj._count -= 1
         objn = self.instantiate(cls, symbolic=True, kw=kw)
-        kwn.owner = objn.val.oid
+        for n in owned:
+            n.owner = objn.val.oid
         self.ops[op]['instance'] = objn.val.oid
         return objn, op
 
@@ -1588,6 +1622,39 @@ class Builder:
             clo = Closure(runm, runm.node, None, self_node=objn, cls=runm.cls, module=runm.module)
             res = self.call_closure(clo, [r, t], {}, runm.node)
         return objn, res
+
+
+ARRAY_MAKERS = {
+    'numpy.array', 'numpy.asarray', 'numpy.flip', 'numpy.linspace', 'numpy.zeros', 'numpy.ones', 'numpy.empty',
+    'numpy.arange', 'numpy.copy', 'numpy.concatenate', 'numpy.append', 'numpy.sort', 'numpy.full', 'numpy.zeros_like',
+    'numpy.ones_like', 'numpy.empty_like', 'numpy.full_like', 'numpy.logspace', 'numpy.meshgrid', 'numpy.reshape',
+    'numpy.ravel', 'numpy.hstack', 'numpy.vstack', 'numpy.cumsum', 'numpy.diff', 'numpy.interp', 'numpy.atleast_1d',
+    'numpy.flipud', 'numpy.fliplr', 'numpy.roll', 'numpy.tile', 'numpy.repeat',
+}
+
+
+def arrayish(n, depth=0):
+    """Conservatively: is this value certainly a numpy array (so that `+=` acts in place)?"""
+    if n is None or depth > 12:
+        return False
+    k = n.kind
+    if k == 'call':
+        return n.val in ARRAY_MAKERS
+    if k in ('store', 'arrayof'):
+        return True
+    if k == 'input':
+        return str(n.val).startswith('r')
+    if k in ('binop', 'unop'):
+        return any(arrayish(a, depth + 1) for a in n.args if isinstance(a, Node))
+    if k == 'sub':
+        return n.args[1].kind == 'slice' and arrayish(n.args[0], depth + 1)
+    if k == 'mcall':
+        return n.val in ('copy', 'astype', 'flatten', 'ravel', 'reshape') and arrayish(n.args[0], depth + 1)
+    if k == 'phi':
+        return arrayish(n.args[1], depth + 1) and arrayish(n.args[2], depth + 1)
+    if k == 'mu':
+        return arrayish(n.args[0], depth + 1)
+    return False
 
 
 def is_memoised(fdef):
